@@ -526,7 +526,9 @@ class ContactlessFrontend(object):
 
         if rdwr_options is not None:
             def on_discover(target):
-                if target.sel_res and target.sel_res[0] & 0x40:
+                if llcp_options is None:
+                    return True
+                elif target.sel_res and target.sel_res[0] & 0x40:
                     return False
                 elif target.sensf_res and target.sensf_res[1:3] == b"\x01\xFE":
                     return False
